@@ -136,6 +136,12 @@ type c20MsgSpec struct {
 	Sweep   string     `json:"sweep,omitempty"`  // burst sweep over spans 2..32: "all" positions or "sampled"
 }
 
+// c20EmptyPayloadSoft: on the unchanged tree a payload whose protobuf encoding is empty does not
+// decode at the receiver (message.go Decompress rejects the nil MsgInfo the wire hop produces). While
+// true, that sub-check reports "HEAD-FAILURE" + label head-failure:empty-payload-wire instead of
+// failing; set it to false once the tree is repaired to make it a hard assertion.
+const c20EmptyPayloadSoft = true
+
 type c20RTOut struct {
 	Viol       string
 	Head       []string
@@ -406,8 +412,8 @@ func c20RunRT(s *c20MsgSpec) *c20RTOut {
 	if err != nil || !proto.Equal(out2, payload) {
 		what := fmt.Sprintf("after the wire hop Unmarshal gives err=%v equal=%v (raw payload %d bytes, encoded %d bytes, Data.MsgInfo nil at receiver=%v)",
 			err, err == nil && proto.Equal(out2, payload), len(raw), o.EncLen, recv.GetData().GetMsgInfo() == nil)
-		if len(raw) == 0 {
-			o.Head = append(o.Head, "empty-payload-wire: "+what)
+		if len(raw) == 0 && c20EmptyPayloadSoft {
+			o.Head = append(o.Head, what)
 		} else {
 			o.Viol = what
 			return o
@@ -783,7 +789,7 @@ func c20GenMsgSpec(rt *rapid.T, maxN int) *c20MsgSpec {
 		s.Bursts = append(s.Bursts, c20Burst{
 			Pos:  spread(i+1, rapid.Uint32().Draw(rt, "bpos")),
 			Span: rapid.IntRange(2, 32).Draw(rt, "bspan"),
-			Mid:  rapid.Uint32().Draw(rt, "bmid"),
+			Mid:  spread(i+2, rapid.Uint32().Draw(rt, "bmid")),
 		})
 	}
 	return s
